@@ -43,6 +43,9 @@ def boot():
     uuid.uuid4 = _fake_uuid4
     random.seed(SEED)
     os.environ.setdefault("MPLBACKEND", "Agg")
+    import warnings
+
+    warnings.filterwarnings("ignore")
     import processscheduler  # noqa
 
     real = os.path.realpath(processscheduler.__file__)
